@@ -18,6 +18,7 @@ Inductive task :=
 | TJoin (h : nat) (k : task)                                   (* h.await *)
 | TAbortT (h : nat) (k : task)                                 (* h.abort() *)
 | TYield (n : nat) (k : task)                                  (* wake self and return Pending, n times *)
+| TLegReq (tg : nat) (e : expr) (x : nat) (k : task)          (* let x = legacy_capability.request_from_shell(op).await inside a Command task *)
 | TAbortC (name : nat) (k : task)                              (* call the AbortHandle kept under [name] from inside a task *)
 | TBoth (tg1 : nat) (e1 : expr) (x1 : nat) (tg2 : nat) (e2 : expr) (x2 : nat) (k : task)
      (* let (x1, x2) = futures::join!(request(op1), request(op2)) *)
